@@ -450,3 +450,60 @@ fn c18_read_row_cell_past_end() {
     kani::cover!(true);
     core::mem::forget((r, exd, exh));
 }
+
+// ------------------------------------------------------------------------------ page file names
+/// `<name>_<start id>[_<language code>].exd` (decided through the format! engine model, registry.FORMAT_MODEL)
+fn page_filename_case(start: u32, li: u8) {
+    let page = crate::exh::ExcelDataPagination { start_id: start, row_count: kani::any() };
+    let raw = [li];
+    let mut c = Cursor::new(&raw[..]);
+    let lang = Language::read_le(&mut c).unwrap();
+    let codes: [&[u8]; 8] = [b"", b"ja", b"en", b"de", b"fr", b"chs", b"cht", b"ko"];
+    let got = EXD::calculate_filename("Item", lang, &page);
+    // expected text, built independently: decimal digits of the start id without leading zeros
+    let mut e = [0u8; 40];
+    let mut n = 0;
+    for b in b"Item_" { e[n] = *b; n += 1; }
+    let mut digits = [0u8; 10];
+    let mut v = start;
+    let mut cnt = 0;
+    let mut i = 0;
+    while i < 10 { digits[9 - i] = b'0' + (v % 10) as u8; if v != 0 || i == 0 { cnt = i + 1; } v /= 10; i += 1; }
+    i = 0;
+    while i < 10 { if i + cnt >= 10 { e[n] = digits[i]; n += 1; } i += 1; }
+    if li != 0 {
+        e[n] = b'_'; n += 1;
+        let code = codes[li as usize];
+        i = 0;
+        while i < code.len() { e[n] = code[i]; n += 1; i += 1; }
+    }
+    for b in b".exd" { e[n] = *b; n += 1; }
+    let g = got.as_bytes();
+    assert_eq!(g.len(), n);
+    i = 0;
+    while i < 40 { if i < n { assert_eq!(g[i], e[i]); } i += 1; }
+    core::mem::forget(got);
+}
+/// every start id below 100 000 (symbolic) x every language (symbolic)
+#[kani::proof]
+#[kani::unwind(100)]
+fn c05_page_filename_ids_below_100000() {
+    let start: u32 = kani::any();
+    kani::assume(start < 100_000);
+    let li: u8 = kani::any();
+    kani::assume(li < 8);
+    page_filename_case(start, li);
+    kani::cover!(start >= 10_000 && li == 6);
+    kani::cover!(start == 0 && li == 0);
+}
+/// wide start ids (concrete: 10 digits, the largest u32) x every language (symbolic)
+#[kani::proof]
+#[kani::unwind(100)]
+fn c05_page_filename_wide_ids() {
+    let li: u8 = kani::any();
+    kani::assume(li < 8);
+    page_filename_case(u32::MAX, li);
+    page_filename_case(1_000_000_000, li);
+    page_filename_case(123_456_789, li);
+    kani::cover!(li == 5);
+}
